@@ -5,7 +5,6 @@ import (
 	"encoding/csv"
 	"fmt"
 	"os"
-	"path/filepath"
 	"strings"
 	"time"
 
@@ -115,7 +114,10 @@ func PerformInputLookup(aggs *structs.QueryAggregators) error {
 		return fmt.Errorf("PerformInputLookup: Only .csv and .csv.gz formats are currently supported")
 	}
 
-	filePath := filepath.Join(config.GetLookupPath(), filename)
+	filePath, err := config.ResolveLookupFile(filename)
+	if err != nil {
+		return fmt.Errorf("PerformInputLookup: %v", err)
+	}
 
 	file, err := os.Open(filePath)
 	if err != nil {
